@@ -138,7 +138,7 @@ func performOn(o op, machines []*xpath.Machine) string {
 		if o.Kind == "runfail" {
 			t.FailAt = map[int]bool{1: true}
 		}
-		obs := xpx.RunMachine(machines[o.Arg], t.At(ctxPositions[o.Ctx]...))
+		obs := xpx.RunMachineDebug(machines[o.Arg], t.At(ctxPositions[o.Ctx]...), o.Kind == "rundebug")
 		return obs.String() + " calls=" + strings.Join(t.CallStrings(), ",") + " listing=" + machines[o.Arg].PrintMachine()
 	}
 }
@@ -269,6 +269,7 @@ func programs() [][]op {
 		{{Kind: "runfail", Arg: 1}},
 		{{Kind: "run", Arg: 1, Ctx: 1}, {Kind: "run", Arg: 3}},
 		{{Kind: "run", Arg: 3, Ctx: 1}},
+		{{Kind: "rundebug", Arg: 0}, {Kind: "rundebug", Arg: 2}},
 	}
 }
 
@@ -312,6 +313,7 @@ func run(c *engine.Ctx) {
 		scenarios = append(scenarios, scenario{Threads: [][]op{{{Kind: "run", Arg: m}}, {{Kind: "run", Arg: m}}}, Tick: true, Bound: tb})
 		scenarios = append(scenarios, scenario{Threads: [][]op{{{Kind: "run", Arg: m}}, {{Kind: "run", Arg: m, Ctx: 1}}}, Tick: true, Bound: tb})
 		scenarios = append(scenarios, scenario{Threads: [][]op{{{Kind: "run", Arg: m}}, {{Kind: "runfail", Arg: m}}}, Tick: true, Bound: tb})
+		scenarios = append(scenarios, scenario{Threads: [][]op{{{Kind: "run", Arg: m}}, {{Kind: "rundebug", Arg: m}}}, Tick: true, Bound: tb})
 		scenarios = append(scenarios, scenario{Threads: [][]op{{{Kind: "run", Arg: m}}, {{Kind: "compile", Arg: 1}}}, Tick: true, Bound: tb})
 		if !c.Quick() {
 			scenarios = append(scenarios, scenario{Threads: [][]op{{{Kind: "run", Arg: m}}, {{Kind: "run", Arg: m, Ctx: 1}}, {{Kind: "run", Arg: (m + 1) % len(machineExprs)}}}, Tick: true, Bound: 1})
@@ -396,6 +398,8 @@ func historyAlphabet() []op {
 		a = append(a, op{Kind: "run", Arg: i}, op{Kind: "run", Arg: i, Ctx: 1})
 	}
 	a = append(a, op{Kind: "runfail", Arg: 0}, op{Kind: "runfail", Arg: 1}, op{Kind: "runfail", Arg: 3, Ctx: 1})
+	// runs with the context's debug listing on: a diagnostic aid that must leave the machine as it was
+	a = append(a, op{Kind: "rundebug", Arg: 0}, op{Kind: "rundebug", Arg: 2}, op{Kind: "rundebug", Arg: 3, Ctx: 1})
 	return a
 }
 
